@@ -271,6 +271,8 @@ partial def toIR : Sexp → Except String IR
   | .list [.atom "StreamAgg", .atom x, a, q] => do pure (.streamAgg (mkName x) (← toIR a) (← toIR q))
   | .list [.atom "AggLet", .atom x, .atom "False", v, b] => do pure (.aggLet (mkName x) (← toIR v) (← toIR b))
   | .list [.atom "AggFilter", .atom "False", c, b] => do pure (.aggFilter (← toIR c) (← toIR b))
+  | .list [.atom "AggExplode", .atom x, .atom "False", e, b] => do pure (.aggExplode (mkName x) (← toIR e) (← toIR b))
+  | .list [.atom "AggGroupBy", .atom "False", k, b] => do pure (.aggGroupBy (← toIR k) (← toIR b))
   | .list [.atom "ApplyAggOp", .atom "Max", .list [], .list [a]] => do pure (.agg .max (← toIR a))
   | .list [.atom "ApplyAggOp", .atom "Collect", .list [], .list [a]] => do pure (.agg .collect (← toIR a))
   | .list (.atom h :: _) => .error s!"unsupported node {h}"
